@@ -13,7 +13,7 @@
 (*  {"op":"reuse","what":W,"obs":X,"fresh":X}  obs on the reused instance  *)
 (*        and on a fresh one for the same input and variable values        *)
 (***************************************************************************)
-EXTENDS TokenIterator, Json, TLC
+EXTENDS TokenIterator, Json, TLC, Held
 VARIABLE l
 Trace == ndJsonDeserialize("trace.ndjson")
 F(ok, name) == IF ok THEN "" ELSE name \o "; "
@@ -23,6 +23,8 @@ Apply(e) ==
     [] e.op = "hasnext"   -> HasNext
     [] e.op = "next"      -> Next
     [] e.op = "new"       -> stream' = <<>> /\ i' = 0
+    \* options changed directly after the reader was attached: from here on the stream of a new tokenizer with those options
+    [] e.op = "setopts" /\ "atstart" \in DOMAIN e -> SetReader(e.fresh)
     [] OTHER              -> UNCHANGED ivars
 
 Fails(e) ==
@@ -38,7 +40,7 @@ Step ==
   /\ l' = l + 1
   /\ LET e == Trace[l] IN
      /\ Apply(e)
-     /\ LET f == Fails(e) IN f = "" \/ PrintT("VERIF-FAIL " \o ToString(l) \o " " \o f)
+     /\ LET f == Fails(e) IN Report(l, f, Trace[l])
 Spec == Init /\ [][Step]_<<l, stream, i>>
 Accepted == TLCGet("stats").diameter - 1 = Len(Trace)
 =============================================================================
